@@ -28,3 +28,55 @@ Example C06_av1_example :
              (enc_many 4 65534 [[[1; 2; 3; 4; 5]; [6]]; [[7]]])
   = Some ([65534; 65535; 0; 1], [false; false; true; true], [4; 4; 4; 2]).
 Proof. vm_compute. reflexivity. Qed.
+
+(* ---- the translated kernels (tools/go2coq, regenerated from the Go source on every run) ----
+   The integer formulas of rtpav1/encoder.go Encode - the room left in the current packet
+   avail := PayloadMaxSize - len(curPacket.Payload), omitSize := (i == len(obus)-1 && obusInPacket < 3),
+   needed = obuLen + obuLenLEBSize, the test needed <= avail (with and without the size), avail > 0,
+   avail > maxFragmentedLEBSize, fragmentLen := avail - maxFragmentedLEBSize, obusInPacket++, e.sequenceNumber++, the W
+   field (obusInPacket + 1) << 4 (both copies) and the |= that set Z, Y, W and N in the aggregation header byte -
+   ARE the formulas of Model.enc_obu / hdr_byte / mk_pkts: max - (1 + nlen cbody), last && (ck <? 3),
+   obuLen + leb_size obuLen <=? avail, obuLen <=? avail, 0 <? avail, mfl <? avail, avail - mfl, ck + 1, seq_next,
+   16 * fw with fw = N.lor cw (ck + 1), + 128 / + 64 / + 8.
+   (maxFragmentedLEBSize itself - av1.LEB128(PayloadMaxSize).MarshalSize() - is a call into mediacommon: not translated.) *)
+From Coq Require Import ZArith.
+From GVG Require Import Kern.
+From GV_av1 Require Import BridgeLib Bridge.
+Open Scope Z_scope.
+
+Theorem C06_av1_kernels_are_the_code :
+  forall (max h : N) (body obu : bytes) (i cnt k s avail mfl : N) (z y n : bool) (w : N) (b : bytes),
+  (1 + nlen body <= max)%N -> Z.of_N max < i64max -> Z.of_N (nlen obu + leb_size (nlen obu)) < i64max ->
+  (1 <= cnt)%N -> Z.of_N cnt < i64max -> Z.of_N (16 * (k + 1)) < i64max -> Z.of_N avail < i64max ->
+  k_av1_avail (Z.of_N max) (Z.of_N (nlen (h :: body))) = Z.of_N (max - (1 + nlen body)) /\
+  k_av1_omit (Z.of_N i) (Z.of_N cnt) (Z.of_N k) = ((i + 1 =? cnt) && (k <? 3))%N /\
+  k_av1_needed (Z.of_N (nlen obu)) (Z.of_N (leb_size (nlen obu))) = Z.of_N (nlen obu + leb_size (nlen obu)) /\
+  k_av1_fits (k_av1_needed (Z.of_N (nlen obu)) (Z.of_N (leb_size (nlen obu)))) (k_av1_avail (Z.of_N max) (Z.of_N (nlen (h :: body))))
+    = (nlen obu + leb_size (nlen obu) <=? max - (1 + nlen body))%N /\
+  k_av1_fits (Z.of_N (nlen obu)) (k_av1_avail (Z.of_N max) (Z.of_N (nlen (h :: body))))
+    = (nlen obu <=? max - (1 + nlen body))%N /\
+  k_av1_avail_pos (Z.of_N avail) = (0 <? avail)%N /\
+  k_av1_frag_ok (Z.of_N avail) (Z.of_N mfl) = (mfl <? avail)%N /\
+  ((mfl <= avail)%N -> k_av1_fraglen (Z.of_N avail) (Z.of_N mfl) = Z.of_N (avail - mfl)) /\
+  k_av1_obus_inc (Z.of_N k) = Z.of_N (k + 1) /\ k_av1_seq (Z.of_N s) = Z.of_N (seq_next s) /\
+  k_av1_w_whole (Z.of_N k) = Z.of_N (16 * (k + 1)) /\ k_av1_w_frag (Z.of_N k) = Z.of_N (16 * (k + 1)) /\
+  ((w < 4)%N -> (k < 3)%N ->
+   k_av1_setz (Z.of_N (hdr_byte (mkFin false y w b) n)) = Z.of_N (hdr_byte (mkFin true y w b) n) /\
+   k_av1_sety (Z.of_N (hdr_byte (mkFin z false w b) n)) = Z.of_N (hdr_byte (mkFin z true w b) n) /\
+   k_av1_setn (Z.of_N (hdr_byte (mkFin z y w b) false)) = Z.of_N (hdr_byte (mkFin z y w b) true) /\
+   k_av1_setw_whole (Z.of_N (hdr_byte (mkFin z y w b) n)) (Z.of_N k) = Z.of_N (hdr_byte (mkFin z y (N.lor w (k + 1)) b) n) /\
+   k_av1_setw_frag (Z.of_N (hdr_byte (mkFin z y w b) n)) (Z.of_N k) = Z.of_N (hdr_byte (mkFin z y (N.lor w (k + 1)) b) n)).
+Proof. exact enc_kernels_are_the_code. Qed.
+Print Assumptions C06_av1_kernels_are_the_code.
+
+(* the translated kernels compute, on the boundaries: a 1450-byte limit and a packet holding only its header leave
+   1449 bytes; the size is omitted for the last OBU when it is the 1st..3rd of the packet, not when it is the 4th, not
+   for an earlier OBU; needed = avail fits, one more does not; avail = 0 writes nothing, avail = 1 a fragment; a sized
+   fragment needs avail > maxFragmentedLEBSize; W of the 3rd element is 48; 65535++ = 0; the header bits *)
+Example C06_av1_example_kernels :
+  k_av1_avail 1450 1 = 1449 /\ k_av1_omit 4 5 2 = true /\ k_av1_omit 4 5 3 = false /\ k_av1_omit 3 5 0 = false /\
+  k_av1_fits (k_av1_needed 1447 2) 1449 = true /\ k_av1_fits (k_av1_needed 1448 2) 1449 = false /\
+  k_av1_avail_pos 0 = false /\ k_av1_avail_pos 1 = true /\ k_av1_frag_ok 2 2 = false /\ k_av1_frag_ok 3 2 = true /\
+  k_av1_fraglen 1449 2 = 1447 /\ k_av1_obus_inc 2 = 3 /\ k_av1_seq 65535 = 0 /\ k_av1_w_whole 2 = 48 /\ k_av1_w_frag 0 = 16 /\
+  k_av1_setz 0 = 128 /\ k_av1_sety 144 = 208 /\ k_av1_setn 16 = 24 /\ k_av1_setw_whole 128 1 = 160 /\ k_av1_setw_frag 0 0 = 16.
+Proof. vm_compute. repeat split. Qed.
